@@ -419,7 +419,7 @@ func realCounts(pool *wproto.Pool, s *fsState, c *tok.Conc) ([][2]int, bool) {
 		cnt := [2]int{}
 		for p, k := range o.after {
 			if p == root || strings.HasPrefix(p, root+"/") {
-				if k == "d" {
+				if strings.HasPrefix(k, "d") {
 					cnt[0]++
 				} else {
 					cnt[1]++
